@@ -868,7 +868,11 @@ func (x *Exec) genesis(f []string) {
 	x.NAccts = n
 	var bals []GenBalance
 	for i := 0; i < n; i++ {
-		bals = append(bals, GenBalance{mkAcct(i).Addr, sdk.NewCoins(sdk.NewCoin(feeDenom, bal), sdk.NewCoin("ubtc", sdk.NewInt(1000000)))})
+		coins := sdk.NewCoins(sdk.NewCoin(feeDenom, bal), sdk.NewCoin("ubtc", sdk.NewInt(1000000)))
+		for _, d := range extraDenoms(f) {
+			coins = coins.Add(sdk.NewCoin(d, sdk.NewInt(1000)))
+		}
+		bals = append(bals, GenBalance{mkAcct(i).Addr, coins})
 	}
 	custom := map[string]json.RawMessage{}
 	for k, v := range x.Custom {
@@ -924,6 +928,19 @@ func (x *Exec) watchBalances() []sdk.Int {
 	return out
 }
 
+// extraDenoms: "# GENESIS <accounts> <balance> [k]": k further denominations tok00..tok(k-1), 1000 of each per account
+func extraDenoms(f []string) []string {
+	if len(f) < 5 {
+		return nil
+	}
+	k, _ := strconv.Atoi(f[4])
+	var out []string
+	for i := 0; i < k && i < 64; i++ {
+		out = append(out, fmt.Sprintf("tok%02d", i))
+	}
+	return out
+}
+
 func (x *Exec) declGenesis(f []string) {
 	n, _ := strconv.Atoi(f[2])
 	bal, ok := sdk.NewIntFromString(f[3])
@@ -944,6 +961,9 @@ func (x *Exec) declGenesis(f []string) {
 	for i := 0; i < n; i++ {
 		x.Out.Decl("BAL %s %s %s", tok(mkAcct(i).Addr), toks(feeDenom), bal.String())
 		x.Out.Decl("BAL %s %s %s", tok(mkAcct(i).Addr), toks("ubtc"), "1000000")
+		for _, d := range extraDenoms(f) {
+			x.Out.Decl("BAL %s %s %s", tok(mkAcct(i).Addr), toks(d), "1000")
+		}
 	}
 	x.NAccts = n
 	for _, a := range x.watchAddrs() {
